@@ -43,11 +43,27 @@ ASSUMPTIONS = [
     "tolerances: 1e-7*(1+depth) on amplitudes, 1e-9 on probabilities (which must be exactly 0.5 or 1 per measured qubit)",
 ]
 SENSITIVITY = [
-    "tableau apply_y sign rule", "tableau _rowsum phase mod 4", "CH-form update_sum omega factor",
-    "tableau _measure keeps stale destabilizer", "CliffordTableau.then composes in the wrong order",
-    "SWAP via CX missing third CX", "SingleQubitCliffordGate.merged_with argument order",
-    "CH-form apply_cx gamma update", "CliffordTableau.inverse sign", "decompose S vs S**-1", "pad_tableau axes",
-    "CH-form reindex", "from_unitary_with_global_phase phase",
+    "tableau apply_y sign rule (Y**1)",
+    "tableau _rowsum phase exponent mod 2 instead of mod 4",
+    "CH-form update_sum drops (-1)**alpha from omega",
+    "tableau _measure keeps the stale destabilizer row",
+    "CliffordTableau.then composes in the wrong order",
+    "SWAP via CX misses the third CX",
+    "SingleQubitCliffordGate.merged_with argument order",
+    "CH-form apply_cx gamma update loses the M.F term",
+    "CliffordTableau.inverse without sign fix-up",
+    "tableau decomposition emits S**-1 for the recorded S",
+    "_pad_tableau drops the sign bits",
+    "CH-form reindex keeps gamma unpermuted",
+    "from_unitary_with_global_phase returns the conjugate phase",
+    "single-qubit fallback forgets the global phase",
+    "CH-form kron drops the second omega",
+    "CH-form project_Z ignores the requested outcome",
+    "CliffordGate.__pow__ negative exponent skips the inverse",
+    "to_phased_xz_gate: wrong z for the X_sqrt class",
+    "HPowGate claims stabilizer effect at half-integer exponents",
+    "StabilizerSampler starts every repetition in |0..01>",
+    "tableau apply_cz drops the sign update of the middle CX",
 ]
 
 SQ = cirq.SingleQubitCliffordGate
